@@ -93,6 +93,36 @@ def variant_agreement(chk):
                     oka = ar == len(pb)
                     chk.ob("V2-export-arity", vf, f"{v}:{q} export signature", oka, f"export declares {ar} arguments = def arity" if oka else
                            f"export declares {ar} arguments but the function takes {len(pb)}", file=v, func=q, nontrivial=False)
+                # V5: arrays the reference declares read-only (Final) are not written by the copy, also not through a view
+                final = {a.arg for a in fn.args.args if a.annotation is not None and "Final" in src(a.annotation)
+                         and "[" in src(a.annotation).replace("Final[", "", 1)}
+                if final:
+                    from .. import lints
+                    # follow the read-only arrays into helpers that exist only in the copy
+                    work, seen_h, muts = [(vf, q, frozenset(final))], set(), []
+                    while work:
+                        hf, hq, hfinal = work.pop()
+                        if (hq, hfinal) in seen_h:
+                            continue
+                        seen_h.add((hq, hfinal))
+                        for node, desc in lints.shared_state_mutations(hf, lambda s_, hfinal=hfinal: s_ in hfinal):
+                            muts.append((hq, node, desc))
+                        for c in ast.walk(hf):
+                            if isinstance(c, ast.Call) and isinstance(c.func, ast.Name) and vm.has(c.func.id) and not rm.has(c.func.id):
+                                cf = vm.func(c.func.id)
+                                formals = [a.arg for a in cf.args.args]
+                                passed = {formals[k] for k, a in enumerate(c.args) if k < len(formals) and isinstance(a, ast.Name) and a.id in hfinal}
+                                passed |= {k.arg for k in c.keywords if isinstance(k.value, ast.Name) and k.value.id in hfinal}
+                                if passed:
+                                    work.append((cf, c.func.id, frozenset(passed)))
+                    for hq, node, desc in muts:
+                        chk.ob("V5-inputs-not-written", node, f"{v}:{hq}: {src(node)[:70]}", False,
+                               desc.replace("the stored", "the caller's read-only input") + f" - the reference kernel `{q}` declares "
+                               f"{sorted(final)} Final (never written); this copy changes the caller's array, so later calls give other "
+                               "results than the reference", file=v, func=hq)
+                    chk.ob("V5-inputs-not-written", vf, f"{v}:{q} leaves {sorted(final)} unchanged", not muts,
+                           f"no store, in-place update or overwrite flag reaches an input array of the reference, directly, through a view or in "
+                           f"the {len(seen_h) - 1} helper(s) it is handed to", file=v, func=q, nontrivial=False)
                 # V4: body equivalence
                 if norm_fn(fn) == norm_fn(vf):
                     proved += 1
@@ -303,6 +333,7 @@ def index_wrap(chk):
     """K1: compiled code does not wrap negative indices: no subscript of the form  X - (Y % n)"""
     files = list(U.KERNELS) + [v for vs in U.VARIANTS.values() for v in vs]
     n = 0
+    n2 = [0]
     for rel in files:
         mod = chk.mod(rel)
         for q, fn in mod.functions().items():
@@ -322,8 +353,66 @@ def index_wrap(chk):
                                 chk.ob("K1-no-negative-index-wrap", s_, f"{src(s_)[:60]} with index {src(e)}", False,
                                        f"the index `{src(e)}` is negative whenever `{src(e.right)}` exceeds `{src(e.left)}`: interpreted Python "
                                        "wraps it around, the compiled (pyccel/pythran) kernel reads/writes out of bounds", file=rel, func=q)
+            # single-step periodic correction of an index computed by subtraction: still negative when the shift exceeds one period
+            idx_names = set()
+            for s_ in ast.walk(fn):
+                if isinstance(s_, ast.Subscript):
+                    for it in (s_.slice.elts if isinstance(s_.slice, ast.Tuple) else [s_.slice]):
+                        if isinstance(it, ast.Name):
+                            idx_names.add(it.id)
+            for iff in ast.walk(fn):
+                if isinstance(iff, ast.If) and isinstance(iff.test, ast.Compare) and len(iff.test.ops) == 1 \
+                        and isinstance(iff.test.ops[0], ast.Lt) and isinstance(iff.test.left, ast.Name) \
+                        and src(iff.test.comparators[0]) == "0" and iff.test.left.id in idx_names and len(iff.body) == 1:
+                    x = iff.test.left.id
+                    b0 = iff.body[0]
+                    add = (isinstance(b0, ast.AugAssign) and isinstance(b0.op, ast.Add) and src(b0.target) == x) or \
+                        (isinstance(b0, ast.Assign) and src(b0.targets[0]) == x and isinstance(b0.value, ast.BinOp)
+                         and isinstance(b0.value.op, ast.Add) and x in (src(b0.value.left), src(b0.value.right)))
+                    defs = [e for e in env.get(x, []) if isinstance(e, ast.BinOp) and isinstance(e.op, ast.Sub)
+                            and not any(isinstance(m, ast.Mod) for m in ast.walk(e))]
+                    if add and defs:
+                        n += 1
+                        chk.ob("K1-no-negative-index-wrap", iff, f"index {x} = {src(defs[0])}; if {x} < 0: {src(b0)}", False,
+                               f"`{x} = {src(defs[0])}` is brought back into range by adding the period once: when the shift exceeds one period "
+                               f"`{x}` stays negative - interpreted Python then indexes from the end (silently, and here even correctly), the "
+                               "compiled kernel reads/writes before the start of the array", file=rel, func=q)
+            # K2: value of a loop variable after its loop: Python keeps the last value taken, Fortran/C the first value not taken
+            for lp in ast.walk(fn):
+                if not isinstance(lp, ast.For) or any(isinstance(b_, ast.Break) for b_ in ast.walk(lp)):
+                    continue
+                tnames = {t.id for t in ast.walk(lp.target) if isinstance(t, ast.Name)}
+                if isinstance(lp.iter, ast.Call) and src(lp.iter.func) == "enumerate" and isinstance(lp.target, ast.Tuple) \
+                        and isinstance(lp.target.elts[0], ast.Name):
+                    counters = {lp.target.elts[0].id}
+                elif isinstance(lp.iter, ast.Call) and src(lp.iter.func) == "range":
+                    counters = tnames
+                else:
+                    counters = set()
+                inside = {id(x_) for x_ in ast.walk(lp)}
+                for nm in counters:
+                    later = [x_ for x_ in ast.walk(fn) if isinstance(x_, ast.Name) and x_.id == nm and id(x_) not in inside
+                             and (x_.lineno, x_.col_offset) > (lp.end_lineno, 0)]
+                    stores = [x_ for x_ in later if isinstance(x_.ctx, ast.Store)]
+                    first_store = min(((x_.lineno, x_.col_offset) for x_ in stores), default=(10 ** 9, 0))
+                    for x_ in later:
+                        if isinstance(x_.ctx, ast.Load) and (x_.lineno < first_store[0] or
+                                                             (x_.lineno == first_store[0] and isinstance(parent(x_), ast.AugAssign) is False and
+                                                              x_.col_offset > first_store[1])):
+                            n2[0] += 1
+                            st_ = x_
+                            while not isinstance(st_, ast.stmt):
+                                st_ = parent(st_)
+                            chk.ob("K2-loop-variable-after-loop", st_, f"`{nm}` read in `{src(st_)[:60]}` after `for {src(lp.target)} in {src(lp.iter)[:40]}`", False,
+                                   f"after the loop Python leaves `{nm}` at the last value it took, the compiled Fortran/C loop at the first "
+                                   f"value it did not take: `{src(st_)[:60]}` addresses a different element in the compiled kernel (one past the "
+                                   "intended one)", file=rel, func=q)
+                            break
+    chk.ob("K2-loop-variable-after-loop", None, "kernels and variants", n2[0] == 0, f"{len(files)} kernel files scanned: no counter of a "
+           "for loop is read after its loop" if n2[0] == 0 else f"{n2[0]} reads of a loop counter after its loop", file="pygyro",
+           func="<kernels>", nontrivial=False)
     chk.ob("K1-no-negative-index-wrap", None, "kernels and variants", n == 0, f"{len(files)} kernel files scanned: no index of the form "
-           "X - (Y % n)" if n == 0 else f"{n} indices rely on negative wrap-around", file="pygyro", func="<kernels>", nontrivial=False)
+           "X - (Y % n) and no single-step wrap of a subtracted index" if n == 0 else f"{n} indices rely on negative wrap-around", file="pygyro", func="<kernels>", nontrivial=False)
 
 
 def build_witness(chk, tier):
